@@ -85,6 +85,14 @@ let () = run (fun case impl ->
   let untouched = if out = 2 then "absent" else "unchanged" in
   count (Printf.sprintf "out=%d" out);
   if not assembled then count ("lib." ^ ptxt);
+  (* W=<image>: the bytes the generator wrote the program down for (every region at its address; files of included
+     sources resolved against the including file): the program must assemble to exactly that *)
+  (match Stdlib.List.find_opt (fun t -> Stdlib.String.length t > 2 && Stdlib.String.sub t 0 2 = "W=") ctoks with
+   | Some t ->
+       let want = Stdlib.String.sub t 2 (Stdlib.String.length t - 2) in
+       count "intended_image_checked";
+       if ptxt <> "!panic" && ptxt <> want then specfail "program_bytes" case impl ("P=" ^ want)
+   | None -> ());
   if ptxt = "!panic" then begin
     (* the library pipeline itself panicked (C06's subject): reported here as a panic of the executable if it did too *)
     count "lib.panic";
